@@ -403,6 +403,26 @@ class GeoInterp:
                     return self.lookup(d, ev(e.args[0]), depth)
                 except GeoKeyError:
                     return ev(e.args[1]) if len(e.args) == 2 else NONE
+        if isinstance(e.func, ast.Attribute) and e.func.attr in ('items', 'keys', 'values') \
+                and not e.args and not kw:
+            d = ev(e.func.value)
+            pairs = None
+            if d[0] == 'DV':
+                pairs = list(d[1])
+            elif d[0] == 'D':
+                _, node, mod = d
+                if any(k is None for k in node.keys):
+                    raise AnalysisError('dict literal with ** expansion')
+                pairs = [(self.eval(k, {}, mod, depth), self.eval(v, {}, mod, depth))
+                         for k, v in zip(node.keys, node.values)]
+            if pairs is not None:
+                # later equal keys win, first position is kept (dict semantics)
+                seen: Dict[Any, Any] = {}
+                for k, v in pairs:
+                    seen[k] = v
+                a = e.func.attr
+                return ('U', tuple(('U', (k, v)) if a == 'items' else (k if a == 'keys' else v)
+                                   for k, v in seen.items()))
         if isinstance(e.func, ast.Attribute) and e.func.attr in ('front',) and not e.args:
             v = ev(e.func.value)
             if v[0] == 'T':
@@ -549,6 +569,16 @@ class GeoInterp:
 
     def _call(self, fn: Func, bound: Dict[str, Any], depth: int = 4):
         w = self.walk_of(fn)
+        # parameters the caller left out take their declared defaults
+        missing = {p: d for p, d in fn.param_defaults().items()
+                   if p not in bound and d is not None}
+        if missing:
+            bound = dict(bound)
+            for p, d in missing.items():
+                try:
+                    bound[p] = self.eval(d, {}, fn.module, depth)
+                except AnalysisError:
+                    pass            # a default outside the grammar only matters if it is read
         for e in w.events:
             if e.kind in ('return', 'raise'):
                 if self.holds(strip_iter(e.guard), bound, fn.module, w, depth):
@@ -574,7 +604,13 @@ class GeoInterp:
                 return self._truth(self.eval(w.expand(a), bound, module, depth))
             except (AnalysisError, GeoKeyError):
                 return None
-        return expand_under(w, e, atom_truth)
+        def other(f):
+            # `raises` leaves: does the try body raise here?
+            try:
+                return self.holds(f, bound, module, w, depth)
+            except (AnalysisError, GeoKeyError):
+                return None
+        return expand_under(w, e, atom_truth, other=other)
 
 
 # ---------------------------------------------------------------------------
